@@ -15,6 +15,9 @@ interaction sample column 0/1, predict_single_drug V0; ids sorted / overwritten 
 screens were generated); module-level caches keyed by screen size (predict) and by (holder, size) (predict_viability_avg: caught by
 the helper-on-subset oracle); avg skipping the last sample; variance stack reusing sample 0; clip bound changed in the single-agent path;
 interaction viability clipping the factors instead of the product.
+Temporaries stream (`run_temporaries`): plates / equal-sized subsets / freshly built holders used as throw-away objects (address reuse)
+for the five helpers and theta.predict_*; mutant "module-level memo keyed by (kind, id(screen), id(thetas)) + shape check" in
+predict_mean_all / predict_variance_all (missed before) and its whole-Screen-only variant (holder ids) are red with a replay.
 """
 import math
 
@@ -400,6 +403,7 @@ class Runner:
         self.kind = case["kind"]
         self.failed = False
         self.kept = []         # (result array, its values when returned, method): re-read after all later calls
+        self.tmp_id_reuse = None
 
     def recheck_kept(self):
         for arr, vals, what in self.kept:
@@ -439,6 +443,96 @@ class Runner:
     def tie(self, line, impl, scales, what, where, matrix=False):
         if self.lines is not None:
             self.lines.append((line, impl, scales, what, where, matrix, self.case))
+
+
+def run_temporaries(R, case, raw, kind, thetas):
+    """Object lifetime: `screen.get_plate(pid)`, `screen.plates`, `screen.subset(mask)` and freshly built holders are used as
+    TEMPORARIES -- nothing but the result is retained, so the next temporary of the same type usually gets the same address
+    (id) and, here, the same size.  Every result must be exactly the corresponding columns / rows of the whole-screen result.
+    Anything memoised by identity (id(screen), id(thetas), id(theta)) without keeping the object alive fails here."""
+    import gc
+    from batchie.core import ThetaHolder
+    from batchie.models import main as mm
+    n = len(raw["snames"])
+    n_pl = 2 if n < 6 else 3
+    scr = build_screen(dict(raw, pnames=["q%d" % (i % n_pl) for i in range(n)], mask=None))   # several (nearly) equal-sized plates
+    plate_ids = np.asarray(scr.plate_ids).copy()
+    masks = [np.array(m, dtype=bool) for m in case.get("tmp_masks", [])]
+    holder = ThetaHolder(n_thetas=len(thetas))
+    holder.thetas = list(thetas)
+    th = thetas[0]
+    calls = [("predict_mean_all", lambda v, h: mm.predict_mean_all(v, h), 1), ("predict_viability_all", lambda v, h: mm.predict_viability_all(v, h), 1),
+             ("predict_variance_all", lambda v, h: mm.predict_variance_all(v, h), 1),
+             ("predict_mean_avg", lambda v, h: mm.predict_mean_avg(v, h), 0), ("predict_viability_avg", lambda v, h: mm.predict_viability_avg(v, h), 0),
+             ("theta.predict_conditional_mean", lambda v, h: th.predict_conditional_mean(v), 0),
+             ("theta.predict_viability", lambda v, h: th.predict_viability(v), 0),
+             ("theta.predict_conditional_variance", lambda v, h: th.predict_conditional_variance(v), 0)]
+    reused = 0
+    gc.collect()
+    for name, fn, two_d in calls:
+        try:
+            with np.errstate(all="ignore"):
+                whole = np.array(fn(scr, holder), dtype=float)
+        except Exception:  # noqa  (NaN refusals etc. are judged by the holder oracles above)
+            continue
+        if np.isnan(whole).any():
+            continue
+        seen_ids = set()
+        targets = [("plate", ("p", int(pid))) for pid in np.unique(plate_ids)] + [("subset", ("m", k)) for k in range(len(masks))]
+        for rnd in ((0, 1) if name.startswith("predict_") else (0,)):   # twice: the second round meets what the first left behind
+            for tname, (tk, tv) in targets:
+                idx = np.where(plate_ids == tv)[0] if tk == "p" else np.where(masks[tv])[0]
+                try:
+                    with np.errstate(all="ignore"):
+                        if tk == "p":
+                            seen_ids.add(id(scr.get_plate(tv)))
+                            out = np.array(fn(scr.get_plate(tv), holder), dtype=float)       # temporary Plate
+                        else:
+                            out = np.array(fn(scr.subset(masks[tv]), holder), dtype=float)    # temporary ScreenSubset
+                except Exception as e:  # noqa
+                    R.fail("%s raises on a temporary %s although it predicts the whole screen" % (name, tname), {"error": repr(e)[:200]}, "an array",
+                           signature="C09:temporaries")
+                    break
+                want = whole[:, idx] if two_d else whole[idx]
+                if out.shape != want.shape or out.tobytes() != want.tobytes():
+                    R.fail("%s on a temporary %s (nothing but the result retained) is not the corresponding entries of the whole screen" % (name, tname),
+                           {"rows": [int(i) for i in idx][:12], "round": rnd, "got": out.reshape(-1)[:8].tolist()}, want.reshape(-1)[:8].tolist(),
+                           signature="C09:temporaries")
+                    break
+            else:
+                continue
+            break
+        reused += len(seen_ids) < len(np.unique(plate_ids)) or len(np.unique(plate_ids)) < 2
+        # ---- temporary HOLDERS of the same length, other members, bound to the same name one after the other
+        if len(thetas) >= 2 and name.startswith("predict_"):
+            L = 2
+            try:
+                with np.errstate(all="ignore"):
+                    per = [np.array(getattr(t, METHODS["mean" if "mean" in name else ("var" if "variance" in name else "viab")])(scr), dtype=float)
+                           for t in thetas]
+            except Exception:  # noqa
+                continue
+            for combo in ([0, 0], [1, 0], [1, 1], [0, 1], [len(thetas) - 1, 0]):
+                h = ThetaHolder(n_thetas=L)            # the previous holder of this name dies here
+                h.thetas = [thetas[k] for k in combo]
+                try:
+                    with np.errstate(all="ignore"):
+                        out = np.array(fn(scr, h), dtype=float)
+                except Exception as e:  # noqa
+                    R.fail("%s raises on a freshly built holder" % name, {"members": combo, "error": repr(e)[:200]}, "an array", signature="C09:temporaries")
+                    break
+                if two_d:
+                    want = np.stack([per[k] for k in combo])
+                else:
+                    want = np.zeros(n, dtype=float)
+                    for k in combo:
+                        want = want + per[k]
+                    want = want / L
+                if out.shape != want.shape or out.tobytes() != want.tobytes():
+                    R.fail("%s with a freshly built holder of the same length but other members returns another holder's result" % name,
+                           {"members": combo, "got": out.reshape(-1)[:8].tolist()}, want.reshape(-1)[:8].tolist(), signature="C09:temporaries")
+                    break
+    R.tmp_id_reuse = reused
 
 
 def aba_triple(sids):
@@ -755,6 +849,9 @@ def run_case(case, res, lines):
         R.tie(hl % "all", allp_l, scales, what, "all", matrix=True)
         if fn_avg is not None:
             R.tie(hl % "avg", avg, scales, what, "avg")
+    # ---- temporaries: views and holders that die right after the call (CPython reuses their addresses) ------------
+    if n >= 2 and ok_whole and supported and in_range:
+        run_temporaries(R, case, raw, kind, thetas)
     # ---- object reuse: after all those calls on other screens / sizes the SAME sample object still predicts the whole
     #      screen as it did at first, and as a fresh sample object built from the same values does ----------------
     if n and ok_whole:
@@ -856,7 +953,13 @@ def gen_case(rng, idx):
     declared = n_th if rng.random() < 0.9 else n_th + 1
     perm = list(range(n))
     rng.shuffle(perm)
-    return {"kind": kind, "idx": idx, "raw": raw, "thetas": thetas, "held": held, "declared": declared,
+    tmp_masks = []
+    if n >= 2:
+        k = rng.randint(1, n - 1)
+        for _ in range(4):
+            chosen = set(rng.sample(range(n), k))
+            tmp_masks.append([i in chosen for i in range(n)])
+    return {"kind": kind, "idx": idx, "raw": raw, "thetas": thetas, "held": held, "declared": declared, "tmp_masks": tmp_masks,
             "mask": [rng.random() < 0.5 for _ in range(n)], "mask2": [rng.random() < 0.6 for _ in range(n)], "perm": perm,
             "short_theta": short, "dropped_key": dropped}
 
@@ -925,6 +1028,10 @@ def _run(ctx, res):
         if case["short_theta"]:
             res.count("theta.too_small")
         res.count("theta.layout.%s" % case["thetas"][0].get("layout", "c"))
+        if R.tmp_id_reuse is not None:
+            res.count("class.temporaries")
+            if R.tmp_id_reuse:
+                res.count("class.temporaries.address_reuse_observed")
         lay0 = case["thetas"][0].get("layout", "c")
         sid_l = [int(x) for x in build_screen(raw).sample_ids] if d["rows"] else []
         tid_a = np.asarray(build_screen(raw).treatment_ids) if d["rows"] else np.zeros((0, d["arity"]), dtype=int)
